@@ -87,6 +87,9 @@ def _worker_task(prop: str, tier: str, oid: str, pidx: int, known_fps: List[str]
             _WORKER_STATE[prop] = True
         obs = {o.oid: o for o in mod.obligations(tier)}
         ob = obs[oid]
+        from vt import ihash
+
+        ihash.reset()  # the token table must never carry (dead) symbolic leaves from an earlier obligation of this worker
         param = ob.params[pidx]
         out["param"] = _short(param)
         if ob.engine == "B":
